@@ -223,6 +223,10 @@ func (g *GcsEmu) handleGcsCompose(ctx context.Context, baseUrl HttpBaseUrl, w ht
 
 	srcs := make([]composeObj, len(req.SourceObjects))
 	for i, sObj := range req.SourceObjects {
+		if sObj == nil {
+			g.gapiError(w, http.StatusBadRequest, "bad compose request")
+			return
+		}
 		var generationMatch int64
 		if sObj.ObjectPreconditions != nil {
 			generationMatch = sObj.ObjectPreconditions.IfGenerationMatch
